@@ -24,6 +24,9 @@ CLAIMS = {
  "C17": ("cycle-must-contain analysis on the backup task's CFG (every cycle passes a blocking select on the task context's Done() whose branch returns), constant evaluation of the timer, edge-dominance of the upload by generation != last, phi-source analysis of the loop-carried generation, value-flow of the uploaded body, who-may-call on the task",
          "Structural necessary conditions, decided for all timelines: the backup task blocks in every loop cycle on cancellation or a >= 1 minute timer (quiescent, cancellable, at most one upload a minute); an upload happens only when the write generation read in that iteration differs from the last successfully uploaded one, which is updated only after a successful upload; the generation is read before the file; the body is the unmodified file content and failures are reported; the task is started once under the server's context. Does not decide S3 behaviour or wall-clock timing; snapshot consistency rests on C04.",
          "time.After(d) fires no earlier than d; os.ReadFile sees one version of a file that is only replaced by rename", "4/C17"),
+ "C02": ("effect sets per public operation over the module call graph against a who-may-write table; contradiction rule on version-map reads (comma-ok, value used only under ok); arithmetic shape of every store to the version counter and key identity of inserts/returns (memory-aware); edge-dominance of deletes/activations and of input guards",
+         "Structural necessary conditions, decided on all paths (not the model equivalence): each operation can only write the locations its documentation allows (put never re-activates, only activate changes the default); a missing version is never read as an empty value; version numbers only move by +1 from the counter (never recomputed, so never reused), new values are stored under and returned as that number, the dedupe short-cut applies only while that version exists with equal bytes; the active version exists and cannot be deleted; empty/reserved names and version 0 never reach a mutation; values are immutable copies; operations touch only their own name. Does not decide equality with the map model over histories.",
+         "calls outside the module do not touch db's private state", "4/C02"),
  "C03": ("typestate on SSA CFG paths (mutation => save => tested error before any return), value-flow of the bytes handed to the file writer, edge-dominance on the open path, JSON wire-signature computed from go/types against the frozen v1 signature, reader/writer sibling agreement",
          "Structural necessary conditions, decided on all paths: no mutator of the persistent state can return without having called the file-writing save and tested its error; what is saved is the live map, wrapped as documented; opening writes only when the file does not exist; the v1 wire layout (keys, encodings, AEAD contexts, key template, schema constant) is unchanged and reader and writer agree. Does not decide state equality after arbitrary histories nor decoding of real old files.",
          "encoding/json encodes according to the computed shape; tink keyset reader/writer are inverse; the v1 layout is the one documented on db.kv", "4/C03"),
